@@ -282,3 +282,364 @@ func sentSides(p *load.Prog, r *oblig.Run, rule, ruleE string, region map[*ssa.F
 		}
 	}
 }
+
+// workerCount (R11.f): util.WorkerPool(n, fn) starts exactly n goroutines - the
+// job producers stride over their list by the same n and rely on every residue
+// class having a worker. The go statement sits in a counting loop whose bound
+// is the parameter itself (not a value derived from it, such as a minimum with
+// GOMAXPROCS).
+func workerCount(p *load.Prog, r *oblig.Run, rule string) {
+	wp := p.Func(load.PkgUtil, "WorkerPool")
+	o := r.Add(rule, "number of workers started by util.WorkerPool", "-", "bound of the loop that starts the workers")
+	if wp == nil || len(wp.Params) == 0 {
+		o.Unknown("util.WorkerPool not found")
+		return
+	}
+	o.Pos = p.Pos(wp.Pos())
+	var goBlk *ssa.BasicBlock
+	for _, b := range wp.Blocks {
+		for _, ins := range b.Instrs {
+			if _, ok := ins.(*ssa.Go); ok {
+				goBlk = b
+			}
+		}
+	}
+	if goBlk == nil {
+		o.Unknown("WorkerPool has no go statement")
+		return
+	}
+	resolve := func(v ssa.Value) ssa.Value {
+		for i := 0; i < 6; i++ {
+			switch x := v.(type) {
+			case *ssa.Convert:
+				v = x.X
+			case *ssa.ChangeType:
+				v = x.X
+			case *ssa.UnOp:
+				al, ok := x.X.(*ssa.Alloc)
+				if !ok {
+					return v
+				}
+				var st *ssa.Store
+				n := 0
+				for _, ref := range *al.Referrers() {
+					if s2, ok := ref.(*ssa.Store); ok && s2.Addr == ssa.Value(al) {
+						st = s2
+						n++
+					}
+				}
+				if n != 1 {
+					return v
+				}
+				v = st.Val
+			default:
+				return v
+			}
+		}
+		return v
+	}
+	found, bad := false, ""
+	for _, h := range loopHeaders(wp) {
+		if !(h == goBlk || (h.Dominates(goBlk) && su.ReachableBlocks(goBlk)[h])) {
+			continue
+		}
+		iff, ok := h.Instrs[len(h.Instrs)-1].(*ssa.If)
+		if !ok {
+			continue
+		}
+		bo, ok := iff.Cond.(*ssa.BinOp)
+		if !ok || bo.Op != token.LSS {
+			continue
+		}
+		found = true
+		bound := resolve(bo.Y)
+		if bound != ssa.Value(wp.Params[0]) {
+			bad = "the loop that starts the workers runs to " + bo.Y.String() + ", which is not the requested count itself"
+		}
+		// starts at 0 and counts by 1
+		if ph, ok := bo.X.(*ssa.Phi); ok {
+			for _, e := range ph.Edges {
+				if k, isK := su.ConstInt(e); isK && k != 0 {
+					bad = "the worker loop does not start at 0"
+				}
+			}
+		}
+	}
+	switch {
+	case !found:
+		o.Unknown("the go statement is not inside a counting loop `i < n`")
+	case bad != "":
+		o.Fail(bad + ": the job producers stride over their list by the requested count, so individuals whose index modulo that count has no worker are never examined for unique-identifier or pointer matches")
+	default:
+		o.OK("one goroutine for each i in 0..n-1, n the parameter")
+	}
+}
+
+// nothingAfterClose (R11.g): a pipeline stage's goroutine touches nothing after
+// closing the channel the stage returned. Closing it is what lets the consumer
+// (in the end Compare itself, whose deferred clean-up closes and clears the
+// notifier) go on; anything the goroutine does afterwards runs concurrently
+// with that.
+func nothingAfterClose(p *load.Prog, r *oblig.Run, rule string, fns []*ssa.Function) {
+	for _, fn := range fns {
+		if fn == nil {
+			continue
+		}
+		// the channel the stage returns
+		var ret *ssa.MakeChan
+		for _, b := range fn.Blocks {
+			if rt, ok := b.Instrs[len(b.Instrs)-1].(*ssa.Return); ok && len(rt.Results) == 1 {
+				v := rt.Results[0]
+				if ld, ok := v.(*ssa.UnOp); ok {
+					if al, ok := ld.X.(*ssa.Alloc); ok {
+						for _, ref := range *al.Referrers() {
+							if st, ok := ref.(*ssa.Store); ok && st.Addr == ssa.Value(al) {
+								v = st.Val
+							}
+						}
+					}
+				}
+				if mk, ok := v.(*ssa.MakeChan); ok {
+					ret = mk
+				}
+			}
+		}
+		if ret == nil {
+			continue
+		}
+		o := r.Add(rule, "after closing the channel returned by "+load.FuncName(fn), p.Pos(ret.Pos()), "what the stage's goroutine does after closing its output")
+		bad := ""
+		nClose := 0
+		var bodies []*ssa.Function
+		bodies = append(bodies, fn.AnonFuncs...)
+		for _, an := range fn.AnonFuncs {
+			bodies = append(bodies, an.AnonFuncs...)
+		}
+		for _, g := range bodies {
+			for _, b := range g.Blocks {
+				for i, ins := range b.Instrs {
+					c, ok := ins.(*ssa.Call)
+					if !ok {
+						continue
+					}
+					bi, ok := c.Call.Value.(*ssa.Builtin)
+					if !ok || bi.Name() != "close" || !sameChannel(c.Call.Args[0], ret, g) {
+						continue
+					}
+					nClose++
+					// everything after the close, on every path
+					var after []ssa.Instruction
+					after = append(after, b.Instrs[i+1:]...)
+					for rb := range su.ReachableBlocks(b) {
+						if rb != b {
+							after = append(after, rb.Instrs...)
+						}
+					}
+					for _, a := range after {
+						switch a.(type) {
+						case *ssa.Return, *ssa.Jump, *ssa.RunDefers, *ssa.If, *ssa.Phi:
+							continue
+						}
+						bad = "after close at " + p.Pos(c.Pos()) + " the goroutine still executes " + a.String() + " (" + p.Pos(a.Pos()) + ")"
+					}
+				}
+			}
+		}
+		switch {
+		case nClose == 0:
+			o.OK("not closed in a goroutine body of this stage (R11.c decides that it is closed)")
+		case bad != "":
+			o.Fail(bad + ": the consumer is released by the close, so this runs concurrently with whatever follows - in the end with Compare's clean-up, which closes and clears the notifier")
+		default:
+			o.OK("the close is the last thing the goroutine does")
+		}
+	}
+}
+
+// listSides (R11.h): the Left of every comparison the pipeline builds is an
+// individual of the left list (Compare's receiver) and the Right one of the
+// right list (its argument). Sides are propagated from Compare through the
+// static calls, closures, indexing, ranging and lookups on a list; a variable
+// that can hold either list has no side.
+func listSides(p *load.Prog, r *oblig.Run, rule string, root *ssa.Function, region map[*ssa.Function]bool) {
+	cmpT := p.ByPath[load.PkgRoot].Types.Scope().Lookup("IndividualComparison")
+	if cmpT == nil || len(root.Params) < 2 {
+		r.Add(rule, "anchors", "-", "anchor").Unknown("IndividualComparison / Compare parameters not found")
+		return
+	}
+	memo := map[ssa.Value]string{}
+	var side func(v ssa.Value, d int) string
+	join := func(a, b string) string {
+		switch {
+		case a == "":
+			return b
+		case b == "" || a == b:
+			return a
+		}
+		return "mixed"
+	}
+	side = func(v ssa.Value, d int) string {
+		if s, ok := memo[v]; ok {
+			return s
+		}
+		if d > 14 {
+			return "?"
+		}
+		memo[v] = "" // cycles (loop phis) contribute nothing
+		res := "?"
+		switch x := v.(type) {
+		case *ssa.Parameter:
+			fn := x.Parent()
+			if fn == root {
+				if x == root.Params[0] {
+					res = "left"
+				} else if x == root.Params[1] {
+					res = "right"
+				}
+				break
+			}
+			idx := -1
+			for i, q := range fn.Params {
+				if q == x {
+					idx = i
+				}
+			}
+			res = ""
+			n := 0
+			for caller := range region {
+				for _, c := range su.Calls(caller) {
+					if c.Common().StaticCallee() == fn && idx < len(c.Common().Args) {
+						n++
+						res = join(res, side(c.Common().Args[idx], d+1))
+					}
+				}
+			}
+			for _, c := range su.Calls(root) {
+				if c.Common().StaticCallee() == fn && idx < len(c.Common().Args) {
+					n++
+					res = join(res, side(c.Common().Args[idx], d+1))
+				}
+			}
+			if n == 0 {
+				res = "?"
+			}
+		case *ssa.FreeVar:
+			fn := x.Parent()
+			res = "?"
+			if par := fn.Parent(); par != nil {
+				for _, b := range par.Blocks {
+					for _, ins := range b.Instrs {
+						if mc, ok := ins.(*ssa.MakeClosure); ok && mc.Fn == fn {
+							for j, fv := range fn.FreeVars {
+								if fv == x {
+									res = side(mc.Bindings[j], d+1)
+								}
+							}
+						}
+					}
+				}
+			}
+		case *ssa.Alloc:
+			res = ""
+			for _, ref := range *x.Referrers() {
+				if st, ok := ref.(*ssa.Store); ok && st.Addr == ssa.Value(x) {
+					res = join(res, side(st.Val, d+1))
+				}
+			}
+			if res == "" {
+				res = "?"
+			}
+		case *ssa.UnOp:
+			switch ad := x.X.(type) {
+			case *ssa.IndexAddr:
+				res = side(ad.X, d+1)
+			default:
+				res = side(x.X, d+1)
+			}
+		case *ssa.Phi:
+			res = ""
+			for _, e := range x.Edges {
+				res = join(res, side(e, d+1))
+			}
+			if res == "" {
+				res = "?"
+			}
+		case *ssa.Extract:
+			res = side(x.Tuple, d+1)
+		case *ssa.Next:
+			res = side(x.Iter, d+1)
+		case *ssa.Range:
+			res = side(x.X, d+1)
+		case *ssa.Index:
+			res = side(x.X, d+1)
+		case *ssa.Slice:
+			res = side(x.X, d+1)
+		case *ssa.ChangeType:
+			res = side(x.X, d+1)
+		case *ssa.Call:
+			// a lookup on a list (right.ByPointer(..), right.ByUniqueIdentifiers(..)) yields individuals of that list
+			if cal := x.Call.StaticCallee(); cal != nil && cal.Signature.Recv() != nil && len(x.Call.Args) > 0 {
+				if n := load.NamedOf(cal.Signature.Recv().Type()); n != nil && n.Obj().Name() == "IndividualNodes" {
+					res = side(x.Call.Args[0], d+1)
+				}
+			}
+		case *ssa.Field:
+			res = side(x.X, d+1)
+		case *ssa.FieldAddr:
+			// j.Left / j.Right of a comparison received from a channel keep their names' sides
+			if ow := su.FieldOwner(x); ow != nil && ow.Obj() == cmpT {
+				switch su.FieldName(x) {
+				case "Left":
+					res = "left"
+				case "Right":
+					res = "right"
+				}
+			}
+		}
+		memo[v] = res
+		return res
+	}
+	var fns []*ssa.Function
+	for f := range region {
+		fns = append(fns, f)
+	}
+	sort.Slice(fns, func(i, j int) bool { return fns[i].String() < fns[j].String() })
+	ord := map[string]int{}
+	for _, fn := range fns {
+		for _, b := range fn.Blocks {
+			for _, ins := range b.Instrs {
+				st, ok := ins.(*ssa.Store)
+				if !ok {
+					continue
+				}
+				fa, ok := st.Addr.(*ssa.FieldAddr)
+				if !ok {
+					continue
+				}
+				ow := su.FieldOwner(fa)
+				if ow == nil || ow.Obj() != cmpT {
+					continue
+				}
+				want := map[string]string{"Left": "left", "Right": "right"}[su.FieldName(fa)]
+				if want == "" {
+					continue
+				}
+				key := fmt.Sprintf("%s of a comparison built in %s", su.FieldName(fa), load.FuncName(fn))
+				ord[key]++
+				if ord[key] > 1 {
+					key = fmt.Sprintf("%s #%d", key, ord[key])
+				}
+				o := r.Add(rule, key, p.Pos(st.Pos()), "which list the individual comes from")
+				got := side(st.Val, 0)
+				switch got {
+				case want:
+					o.OK("an individual of the " + want + " list")
+				case "?":
+					o.OK("origin not traced to either list (nothing to cross-check)")
+				default:
+					o.Fail(fmt.Sprintf("the %s of a comparison can be an individual of the %s list: the result is not a matching between the left and the right individuals (left individuals are missing as Left, or appear as Right)", su.FieldName(fa), map[string]string{"left": "left", "right": "right", "mixed": "left or right (a variable that holds either)"}[got]))
+				}
+			}
+		}
+	}
+}
